@@ -78,6 +78,8 @@ pub struct CacheD<Key, Value>
     ttl_ticker: Arc<TTLTicker>,
     id_generator: IncreasingIdGenerator,
     is_shutting_down: AtomicBool,
+    #[cfg(feature = "verif_hooks")]
+    verif: Arc<crate::cache::verif::Instance>,
 }
 
 impl<Key, Value> CacheD<Key, Value>
@@ -86,6 +88,8 @@ impl<Key, Value> CacheD<Key, Value>
     /// Creates a new instance of `Cached` with the provided [`crate::cache::config::Config`]
     pub fn new(config: Config<Key, Value>) -> Self {
         assert!(config.counters > 0);
+        #[cfg(feature = "verif_hooks")]
+        let verif = crate::cache::verif::current();
 
         let stats_counter = Arc::new(ConcurrentStatsCounter::new());
         let store = Store::new(config.clock.clone_box(), stats_counter.clone(), config.capacity, config.shards);
@@ -103,6 +107,8 @@ impl<Key, Value> CacheD<Key, Value>
             ttl_ticker,
             id_generator: IncreasingIdGenerator::new(),
             is_shutting_down: AtomicBool::new(false),
+            #[cfg(feature = "verif_hooks")]
+            verif,
         }
     }
 
@@ -164,6 +170,8 @@ impl<Key, Value> CacheD<Key, Value>
         if self.store.is_present(&key) {
             return Ok(CommandAcknowledgement::rejected(RejectionReason::KeyAlreadyExists))
         }
+        #[cfg(feature = "verif_hooks")]
+        self.verif.point(crate::cache::verif::Site::PutAfterExistenceCheck);
         self.command_executor.send(CommandType::Put(
             self.key_description(key, weight),
             value,
@@ -201,6 +209,8 @@ impl<Key, Value> CacheD<Key, Value>
         if self.store.is_present(&key) {
             return Ok(CommandAcknowledgement::rejected(RejectionReason::KeyAlreadyExists))
         }
+        #[cfg(feature = "verif_hooks")]
+        self.verif.point(crate::cache::verif::Site::PutAfterExistenceCheck);
         self.command_executor.send(CommandType::PutWithTTL(
             self.key_description(key, weight), value, time_to_live)
         )
@@ -237,6 +247,8 @@ impl<Key, Value> CacheD<Key, Value>
         if self.store.is_present(&key) {
             return Ok(CommandAcknowledgement::rejected(RejectionReason::KeyAlreadyExists))
         }
+        #[cfg(feature = "verif_hooks")]
+        self.verif.point(crate::cache::verif::Site::PutAfterExistenceCheck);
         self.command_executor.send(CommandType::PutWithTTL(
             self.key_description(key, weight), value, time_to_live,
         ))
@@ -270,6 +282,10 @@ impl<Key, Value> CacheD<Key, Value>
 
         let update_response
             = self.store.update(&key, value, time_to_live, request.remove_time_to_live);
+        #[cfg(feature = "verif_hooks")]
+        crate::cache::verif::set_last_upsert_in_place(update_response.did_update_happen());
+        #[cfg(feature = "verif_hooks")]
+        self.verif.point(crate::cache::verif::Site::UpsertAfterStoreUpdate);
 
         if !update_response.did_update_happen() {
             let value = update_response.value();
@@ -313,6 +329,8 @@ impl<Key, Value> CacheD<Key, Value>
 
         if let Some(weight) = updated_weight {
             assert!(weight > 0, "{}", Errors::KeyWeightGtZero("PutOrUpdate"));
+            #[cfg(feature = "verif_hooks")]
+            self.verif.point(crate::cache::verif::Site::UpsertBeforeSend);
             return self.command_executor.send(CommandType::UpdateWeight(key_id, weight));
         }
         Ok(CommandAcknowledgement::accepted())
@@ -344,6 +362,8 @@ impl<Key, Value> CacheD<Key, Value>
         if self.is_shutting_down() { return shutdown_result(); }
 
         self.store.mark_deleted(&key);
+        #[cfg(feature = "verif_hooks")]
+        self.verif.point(crate::cache::verif::Site::DeleteAfterMarkDeleted);
         self.command_executor.send(CommandType::Delete(key))
     }
 
@@ -374,6 +394,8 @@ impl<Key, Value> CacheD<Key, Value>
         if self.is_shutting_down() { return None; }
 
         if let Some(value_ref) = self.store.get_ref(key) {
+            #[cfg(feature = "verif_hooks")]
+            self.verif.point(crate::cache::verif::Site::ReadAfterStore);
             self.mark_key_accessed(key);
             return Some(value_ref);
         }
@@ -457,17 +479,31 @@ impl<Key, Value> CacheD<Key, Value>
     pub fn shutdown(&self) {
         if self.is_shutting_down.compare_exchange(false, true, Ordering::Release, Ordering::Relaxed).is_ok() {
             info!("Starting to shutdown cached");
+            #[cfg(feature = "verif_hooks")]
+            self.verif.point(crate::cache::verif::Site::ShutdownAfterFlag);
             let _ = self.command_executor.shutdown();
+            #[cfg(feature = "verif_hooks")]
+            self.verif.point(crate::cache::verif::Site::ShutdownAfterCommand);
             self.admission_policy.shutdown();
+            #[cfg(feature = "verif_hooks")]
+            self.verif.point(crate::cache::verif::Site::ShutdownAfterPolicy);
             self.ttl_ticker.shutdown();
+            #[cfg(feature = "verif_hooks")]
+            self.verif.point(crate::cache::verif::Site::ShutdownAfterTicker);
 
             self.store.clear();
+            #[cfg(feature = "verif_hooks")]
+            self.verif.point(crate::cache::verif::Site::ShutdownAfterStoreClear);
             self.admission_policy.clear();
+            #[cfg(feature = "verif_hooks")]
+            self.verif.point(crate::cache::verif::Site::ShutdownAfterPolicyClear);
             self.ttl_ticker.clear();
         }
     }
 
     fn mark_key_accessed(&self, key: &Key) {
+        #[cfg(feature = "verif_hooks")]
+        self.verif.point(crate::cache::verif::Site::PoolAdd);
         self.pool.add((self.config.key_hash_fn)(key));
     }
 
@@ -515,6 +551,8 @@ impl<Key, Value> CacheD<Key, Value>
         if self.is_shutting_down() { return None; }
 
         if let Some(value) = self.store.get(key) {
+            #[cfg(feature = "verif_hooks")]
+            self.verif.point(crate::cache::verif::Site::ReadAfterStore);
             self.mark_key_accessed(key);
             return Some(value);
         }
@@ -629,6 +667,47 @@ impl<Key, Value> CacheD<Key, Value>
             map_fn,
         }
     }
+}
+
+/// Read-only accessors and controls for the verification harness (feature `verif_hooks` only).
+#[cfg(feature = "verif_hooks")]
+impl<Key, Value> CacheD<Key, Value>
+    where Key: Hash + Eq + Send + Sync + Clone + 'static,
+          Value: Send + Sync + 'static {
+    /// The hook state shared by all structures of this cache.
+    pub fn verif_instance(&self) -> Arc<crate::cache::verif::Instance> { self.verif.clone() }
+
+    /// Physical state: store entries, charged weights, expiry index, weight used. Read structure by structure.
+    pub fn verif_snapshot(&self) -> crate::cache::verif::Snapshot<Key> {
+        crate::cache::verif::Snapshot {
+            store: self.store.verif_entries(),
+            weights: self.admission_policy.verif_weight_entries(),
+            ttl: self.ttl_ticker.verif_entries(),
+            weight_used: self.admission_policy.weight_used(),
+            max_weight: self.config.total_cache_weight,
+        }
+    }
+
+    /// Physical entry of one key: (id, expiry, soft deleted).
+    pub fn verif_peek(&self, key: &Key) -> Option<(KeyId, Option<std::time::SystemTime>, bool)> { self.store.verif_peek(key) }
+
+    /// Charged weight of a key id.
+    pub fn verif_weight_of(&self, key_id: KeyId) -> Option<Weight> { self.admission_policy.weight_of(&key_id) }
+
+    /// Current frequency estimate of a key hash.
+    pub fn verif_estimate(&self, key_hash: crate::cache::types::KeyHash) -> crate::cache::types::FrequencyEstimate { self.admission_policy.estimate(key_hash) }
+
+    /// The hash the cache uses for a key.
+    pub fn verif_hash_of(&self, key: &Key) -> crate::cache::types::KeyHash { (self.config.key_hash_fn)(key) }
+
+    /// Records accesses directly in the frequency sketch (bypasses pool and consumer).
+    pub fn verif_increment_access(&self, key_hashes: Vec<crate::cache::types::KeyHash>) { self.admission_policy.verif_increment_access(key_hashes); }
+
+    /// Number of access records currently buffered in the pool.
+    pub fn verif_buffered_accesses(&self) -> usize { self.pool.verif_buffered() }
+
+    /// (total increments since the last ageing, reset threshold) of the frequency sketch.
+    pub fn verif_sketch_progress(&self) -> (u64, u64) { self.admission_policy.verif_sketch_progress() }
 }
 
 /// `MultiGetIterator` allows iterating over multiple keys and getting the value corresponding to each key.
